@@ -5,7 +5,6 @@
 //! decoding that hex again gives the same fields.
 use crate::common::*;
 use crate::decgen::*;
-use rs1090::decode::crc::modes_checksum;
 use rs1090::prelude::*;
 
 /// scan raw JSON text; returns Err(key) on the first duplicate key inside one object
@@ -60,20 +59,6 @@ fn dup_key(s: &str) -> Result<(), String> {
         }
     }
     Ok(())
-}
-
-/// remainder of data(x)·x^24 modulo G(x) = x^24 + x^23 + … + x^12 + x^10 + x^3 + 1 (Annex 10 Vol IV 3.1.2.3.3)
-fn spec_parity24(data: &[u8]) -> u32 {
-    const G: u32 = 0x1FFF409;
-    let mut r: u32 = 0;
-    for i in 0..data.len() * 8 + 24 {
-        let bit = if i < data.len() * 8 { (data[i / 8] >> (7 - i % 8)) & 1 } else { 0 } as u32;
-        r = (r << 1) | bit;
-        if r & 0x1000000 != 0 {
-            r ^= G;
-        }
-    }
-    r & 0xFFFFFF
 }
 
 fn oracle(out: &mut Out, bytes: &[u8], op: &str) -> String {
